@@ -15,6 +15,7 @@ import Mathlib.Tactic.FieldSimp
 import Mathlib.Tactic.Ring
 import Rsa.Lemmas.C11Split
 import Rsa.Lemmas.C11Bin
+import Rsa.Lemmas.C11Frame
 
 set_option linter.unusedSectionVars false
 set_option linter.unusedVariables false
@@ -644,6 +645,88 @@ theorem reachable_inv_bin [Add α] [Zero α] [Div α] [NatCast α] (init : DS α
       exact applyOp_prov ⟨bins_mem_binKeys ops, fun i by_ bins ho =>
         by_mem_binKeys (ho ▸ hmem o (by simp))⟩ hws hstep
 
+/-! ### frame: objects are values — an operation on one object leaves all others unchanged -/
+
+/-- **Frame.**  An operation addressed to object `i` of the workspace (every operation except
+    `merge` and `pick`, which consume the whole workspace) replaces that object by its `n` results
+    and leaves **every other object `j ≠ i` exactly as it was** — measurements *and* every
+    descriptor column: the objects before `i` keep their positions, the objects after `i` are
+    shifted by `n - 1`.  In particular `sort_by` on one dataset (the only in-place operation of
+    the library) cannot reorder the labels of the dataset it was derived from, nor of a sibling
+    part, whatever the history that produced them: in the model objects are values.  The session
+    correspondence re-reads every object of the real workspace after every step and compares all
+    of them with the model's workspace, so shared mutable state on the real side (a descriptor
+    dictionary handed on to a derived dataset and later written to) shows as a disagreement. -/
+theorem applyOp_frame [Add α] [Zero α] [Div α] [NatCast α] {ws ws' : List (DS α)} {o : Op} {i : Nat}
+    (ht : o.target = some i) (h : applyOp ws o = some ws') :
+    ∃ n, ws'.length + 1 = ws.length + n ∧
+      (∀ j, j < i → ws'[j]? = ws[j]?) ∧ (∀ j, i < j → ws'[j + n - 1]? = ws[j]?) := by
+  rcases applyOp_shape ht h with rfl | ⟨d, new, hd, rfl⟩
+  · exact ⟨1, rfl, fun _ _ => rfl, fun j _ => by simp⟩
+  · have hi : i < ws.length := (List.getElem?_eq_some_iff.1 hd).1
+    exact ⟨new.length, replaceAt_length hi, fun j hj => replaceAt_getElem?_lt hi hj,
+      fun j hj => replaceAt_getElem?_gt hi hj⟩
+
+/-- the in-place operation: `sort_by` on object `i` puts the stably sorted dataset at position `i`
+    and every other object of the workspace is, position by position, what it was -/
+theorem sortBy_frame [Add α] [Zero α] [Div α] [NatCast α] {ws ws' : List (DS α)} {i : Nat} {by_ : String}
+    (h : applyOp ws (.sortBy i by_) = some ws') :
+    ws'.length = ws.length ∧ (∀ j, j ≠ i → ws'[j]? = ws[j]?) ∧
+      ∃ d, ws[i]? = some d ∧ ws'[i]? = sortBy by_ d := by
+  simp only [applyOp] at h
+  cases hd : ws[i]? with
+  | none => simp [hd] at h
+  | some d =>
+    simp only [hd, Option.bind_some] at h
+    cases hs : sortBy by_ d with
+    | none => simp [hs] at h
+    | some x =>
+      simp only [hs, Option.map_some, Option.some.injEq] at h
+      subst h
+      have hi : i < ws.length := (List.getElem?_eq_some_iff.1 hd).1
+      refine ⟨?_, fun j hj => ?_, d, rfl, ?_⟩
+      · have := replaceAt_length (new := [x]) hi
+        simp only [List.length_cons, List.length_nil] at this
+        omega
+      · rcases Nat.lt_or_gt_of_ne hj with hj | hj
+        · exact replaceAt_getElem?_lt hi hj
+        · simpa using replaceAt_getElem?_gt (new := [x]) hi hj
+      · rw [hs]; simpa using replaceAt_getElem?_new (new := [x]) (k := 0) hi (by simp)
+
+/-- a value-returning operation whose caller keeps the source (`applyKeep`: the session form of
+    `parts = ds.split_channel(by)` with `ds` still in use): the source stays at position `i`
+    unchanged, the `n` results follow it, and every other object is unchanged -/
+theorem keep_frame [Add α] [Zero α] [Div α] [NatCast α] {ws ws' : List (DS α)} {o : Op} {i : Nat}
+    (ht : o.target.isSome = true) (h : applyKeep ws i o = some ws') :
+    ∃ d n, ws[i]? = some d ∧ ws'.length = ws.length + n ∧
+      (∀ j, j ≤ i → ws'[j]? = ws[j]?) ∧ (∀ j, i < j → ws'[j + n]? = ws[j]?) := by
+  unfold applyKeep at h
+  simp only [applyOp] at h
+  cases hd : ws[i]? with
+  | none => simp [hd] at h
+  | some d =>
+    simp only [hd, Option.map_some, Option.bind_some] at h
+    have hi : i < ws.length := (List.getElem?_eq_some_iff.1 hd).1
+    have htt : (o.retarget (i + 1)).target = some (i + 1) := by
+      cases o <;> simp_all [Op.target, Op.retarget]
+    obtain ⟨n, hlen, hlt, hgt⟩ := applyOp_frame htt h
+    have hwl := replaceAt_length (new := [d, d]) hi
+    simp only [List.length_cons, List.length_nil] at hwl
+    refine ⟨d, n, rfl, by omega, fun j hj => ?_, fun j hj => ?_⟩
+    · rw [hlt j (by omega)]
+      rcases Nat.lt_or_eq_of_le hj with hj | rfl
+      · exact replaceAt_getElem?_lt hi hj
+      · simpa [hd] using replaceAt_getElem?_new (new := [d, d]) (k := 0) hi (by simp)
+    · have h1 := hgt (j + 1) (by omega)
+      have h2 := replaceAt_getElem?_gt (new := [d, d]) hi hj
+      simp only [List.length_cons, List.length_nil] at h2
+      have e1 : j + 1 + n - 1 = j + n := by omega
+      have e2 : j + (0 + 1 + 1) - 1 = j + 1 := by omega
+      rw [e1] at h1
+      rw [e2] at h2
+      rw [h1, h2]
+
+
 /-! ### non-vacuity: the hypotheses are met by concrete, non-trivial objects -/
 
 /-- flat dataset, 4 observations (two conditions, duplicate labels) × 2 channels -/
@@ -734,5 +817,16 @@ example : dfDefaultRepresentable "n" { exM with obs := exM.obs.filter (fun kc =>
 example : floatCol [.flt 2, .flt 2] = true ∧ floatCol [.num 2, .num 2] = false ∧
     floatCol [.str "a", .na] = false ∧ floatCol [.num 1, .na] = true := by decide +kernel
 example : dfRepresentable "n" { exM with chan := [("n", [.str "x", .str "m"])] } = false := by decide +kernel
+
+-- applyOp_frame / sortBy_frame / keep_frame: sorting one of two objects leaves the other as it
+-- was; a channel split whose source is kept: source first, then the parts, the bystander last
+example : (Op.sortBy 0 "c").target = some 0 ∧ (Op.splitChan 3 "n").target.isSome = true := by decide
+example : (applyOp [exT, ex] (.sortBy 0 "c")).bind (fun w => w[1]?.map (fun d => (d.obs.col "c", d.meas.map (·.flatten))))
+    = some (some [.str "b", .str "a", .str "b", .str "a"], [[11, 12], [21, 22], [31, 32], [41, 42]]) := by
+  decide +kernel
+example : (applyKeep [ex, exT] 0 (.splitChan 0 "n")).map (fun w => w.map (fun d => d.meas.map (·.flatten)))
+    = some [[[11, 12], [21, 22], [31, 32], [41, 42]], [[11], [21], [31], [41]], [[12], [22], [32], [42]],
+            [[111, 112, 113], [211, 212, 213]]] := by
+  decide +kernel
 
 end Rsa.Props.C11
